@@ -66,43 +66,63 @@ theorem mapM_positionOf {sh : Shape ν} (hn : (namesOf sh).Nodup) (P : List Nat)
   | cons p ps ih =>
     simp [List.mapM_cons, positionOf_nameAt hn (hP p (by simp)), ih (fun q hq => hP q (by simp [hq]))]
 
-/-- The invariant of a view that claims a linear layout: a list `P` of positions of its shape
-    (most significant dimension in memory first) such that the claimed order names exactly those
-    positions, and an in-bounds index resolves to the row-major offset of its coordinates taken
-    in that order, in the single leaf, which the view spans completely. -/
+/-- one dimension of a view that is laid out linearly: its position in the view's shape, where
+    the view starts inside the leaf's extent along it, and that full extent -/
+structure MemDim where
+  pos : Nat
+  start : Nat
+  full : Nat
+
+/-- The invariant of a view that claims a linear layout: the list `M` of its dimensions from the
+    most significant in memory to the least (positions of its shape, with the offset of the view
+    inside the leaf's extent and that extent) such that the claimed order names exactly those
+    positions, the view lies inside the single leaf, and an in-bounds index resolves to the
+    row-major offset, in the leaf's full extents, of its coordinates taken in that order and
+    shifted by the starts. -/
 def Lin (v : View ν α) (order : List ν) : Prop :=
-  ∃ (P : List Nat) (leaf : Nat) (data : List α),
-    P.length = v.shape.length ∧ P.Nodup ∧ (∀ p ∈ P, p < v.shape.length) ∧
-    order = P.map (nameAt v.shape) ∧
-    v.leaves = [(leaf, data)] ∧ data.length = prod (P.map (lenAt v.shape)) ∧
+  ∃ (M : List MemDim) (leaf : Nat) (data : List α),
+    M.length = v.shape.length ∧ (M.map (·.pos)).Nodup ∧ (∀ m ∈ M, m.pos < v.shape.length) ∧
+    order = M.map (fun m => nameAt v.shape m.pos) ∧
+    v.leaves = [(leaf, data)] ∧ data.length = prod (M.map (·.full)) ∧
+    (∀ m ∈ M, m.start + lenAt v.shape m.pos ≤ m.full) ∧
     ∀ idx, inBounds (lens v.shape) idx = true →
-      v.specCell idx = some (leaf, ravel (P.map (lenAt v.shape)) (P.map fun p => idx.getD p 0))
+      v.specCell idx =
+        some (leaf, ravel (M.map (·.full)) (M.map fun m => idx.getD m.pos 0 + m.start))
 
 theorem lin_tensor (id : Nat) (t : Tensor ν α) (hw : (View.tensor id t).WF) :
     Lin (View.tensor id t) (namesOf t.shape) := by
   simp only [View.WF] at hw
-  refine ⟨List.range t.shape.length, id, t.data, by simp [View.shape], List.nodup_range,
-    by simp [View.shape], by simp [View.shape, map_range_nameAt], by simp [View.leaves], ?_, ?_⟩
-  · simp only [View.shape, map_range_lenAt]; rw [hw.2.2.1]; rfl
+  refine ⟨(List.range t.shape.length).map (fun p => ⟨p, 0, lenAt t.shape p⟩), id, t.data,
+    by simp [View.shape], ?_, ?_, ?_, by simp [View.leaves], ?_, ?_, ?_⟩
+  · simp only [List.map_map, Function.comp_def, List.map_id']; exact List.nodup_range
+  · intro m hm
+    obtain ⟨p, hp, rfl⟩ := List.mem_map.1 hm
+    simpa [View.shape] using hp
+  · simp only [View.shape, List.map_map, Function.comp_def]; exact (map_range_nameAt t.shape).symm
+  · simp only [List.map_map, Function.comp_def, map_range_lenAt]; rw [hw.2.2.1]; rfl
+  · intro m hm
+    obtain ⟨p, _, rfl⟩ := List.mem_map.1 hm
+    simp [View.shape]
   · intro idx hin
     simp only [View.shape] at hin ⊢
     have hl := inBounds_length hin
     simp only [lens_length] at hl
     have : (List.range t.shape.length).map (fun p => idx.getD p 0) = idx := by
       rw [← hl]; exact map_range_getD idx 0
-    simp only [View.specCell, map_range_lenAt, this]
+    simp only [View.specCell, List.map_map, Function.comp_def, Nat.add_zero, map_range_lenAt, this]
 
 theorem lin_matrix (id : Nat) (m : Matrix α) (r c : ν) (hw : (View.matrix id m r c).WF) :
     Lin (View.matrix id m r c) [r, c] := by
   simp only [View.WF] at hw
-  refine ⟨[0, 1], id, m.data, by simp [View.shape], by simp, by simp [View.shape],
-    by simp [View.shape, nameAt], by simp [View.leaves], ?_, ?_⟩
-  · simp [View.shape, lenAt, hw.1.1]
+  refine ⟨[⟨0, 0, m.rows⟩, ⟨1, 0, m.columns⟩], id, m.data, by simp [View.shape], by simp,
+    by simp [View.shape], by simp [View.shape, nameAt], by simp [View.leaves], ?_, ?_, ?_⟩
+  · simp [hw.1.1]
+  · simp [View.shape, lenAt]
   · intro idx hin
     simp only [View.shape, lens_cons, lens_nil] at hin
     have hl := inBounds_length hin
     match idx, hl with
-    | [a, b], _ => simp [View.specCell, View.shape, lenAt]
+    | [a, b], _ => simp [View.specCell]
 
 theorem lenAt_eq_lens_getD (sh : Shape ν) (p : Nat) : lenAt sh p = (lens sh).getD p 0 := by
   rw [lens_getD]; rfl
@@ -114,6 +134,36 @@ theorem nameAt_eq_names_getD (sh : Shape ν) (p : Nat) : nameAt sh p = (namesOf 
 
 theorem map_congr_mem {β γ : Type} {f g : β → γ} {l : List β} (h : ∀ x ∈ l, f x = g x) :
     l.map f = l.map g := List.map_congr_left h
+
+theorem getD_reindex {m : DimensionMappings} {sh : Shape ν} (hm : MappingOK m sh.length) {p : Nat}
+    (hp : p < sh.length) :
+    (m.mapShapeToRequested sh).getD (m.sourceToRequested.getD p 0) (default, 0) =
+      sh.getD p (default, 0) := by
+  obtain ⟨hlt, hinv⟩ := hm.2.2.1 p hp
+  rw [mapShapeToRequested_getElem hm hlt, hinv]
+
+theorem nameAt_inj {sh : Shape ν} (hn : (namesOf sh).Nodup) {p q : Nat} (hp : p < sh.length)
+    (hq : q < sh.length) (h : nameAt sh p = nameAt sh q) : p = q := by
+  simp only [nameAt, getD_eq_getElem' hp, getD_eq_getElem' hq] at h
+  exact nodup_getElem_inj hn (by simpa using hp) (by simpa using hq) (by simpa [namesOf] using h)
+
+
+/-- an adaptor that keeps positions, lengths and cells (rename, `TensorMap`, the matrix round
+    trip): the invariant carries over with the new names -/
+theorem lin_same (s v : View ν α) {order_s order : List ν} (hlin : Lin s order_s)
+    (hlen : v.shape.length = s.shape.length)
+    (hlenAt : ∀ p, lenAt v.shape p = lenAt s.shape p) (hlens : lens v.shape = lens s.shape)
+    (hleaves : v.leaves = s.leaves) (hcell : ∀ idx, v.specCell idx = s.specCell idx)
+    (horder : ∀ M : List MemDim, M.length = s.shape.length →
+      order_s = M.map (fun m => nameAt s.shape m.pos) →
+      (∀ m ∈ M, m.pos < s.shape.length) → order = M.map (fun m => nameAt v.shape m.pos)) :
+    Lin v order := by
+  obtain ⟨M, leaf, data, h1, h2, h3, h4, h5, h6, h6b, h7⟩ := hlin
+  refine ⟨M, leaf, data, by omega, h2, by intro m hm; rw [hlen]; exact h3 m hm, horder M h1 h4 h3,
+    by rw [hleaves]; exact h5, h6, by intro m hm; rw [hlenAt]; exact h6b m hm, ?_⟩
+  intro idx hin
+  rw [hlens] at hin
+  rw [hcell]; exact h7 idx hin
 
 theorem lin_rename (s : View ν α) (ns : List ν) (hw : (View.rename s ns).WF)
     (ih : ∀ order, s.layout = .ok (.linear order) → Lin s order) (order : List ν)
@@ -129,59 +179,78 @@ theorem lin_rename (s : View ν α) (ns : List ν) (hw : (View.rename s ns).WF)
     | nonLinear => simp [hs] at hl
     | other => simp [hs] at hl
     | linear order_s =>
-      obtain ⟨P, leaf, data, h1, h2, h3, h4, h5, h6, h7⟩ := ih order_s hs
-      simp only [hs, renameLayout, h4, mapM_positionOf hnod P h3, Outcome.ok.injEq,
-        DataLayout.linear.injEq] at hl
+      have hlin := ih order_s hs
       have hname : ∀ p, nameAt (renameShape s.shape ns) p = ns.getD p default := by
         intro p; rw [nameAt_eq_names_getD, renameShape_names hw.2.1]
-      have hlen : ∀ p, lenAt (renameShape s.shape ns) p = lenAt s.shape p := by
-        intro p; rw [lenAt_eq_lens_getD, lenAt_eq_lens_getD, renameShape_lens hw.2.1]
-      refine ⟨P, leaf, data, by simp [View.shape, renameShape_length hw.2.1, h1], h2,
-        by simpa [View.shape, renameShape_length hw.2.1] using h3, ?_, by simpa [View.leaves] using h5, ?_, ?_⟩
-      · rw [← hl]; simp only [View.shape]; exact map_congr_mem (fun p _ => (hname p).symm)
-      · simp only [View.shape, show (lenAt (renameShape s.shape ns)) = lenAt s.shape from funext hlen]
-        exact h6
-      · intro idx hin
-        simp only [View.shape, renameShape_lens hw.2.1] at hin
-        simp only [View.specCell, View.shape, show (lenAt (renameShape s.shape ns)) = lenAt s.shape from funext hlen]
-        exact h7 idx hin
+      refine lin_same s _ hlin (by simp [View.shape, renameShape_length hw.2.1])
+        (by intro p; simp only [View.shape]; rw [lenAt_eq_lens_getD, lenAt_eq_lens_getD, renameShape_lens hw.2.1])
+        (by simp only [View.shape]; exact renameShape_lens hw.2.1) rfl (fun _ => rfl) ?_
+      intro M _ hM hpos
+      have hP : ∀ p ∈ M.map (·.pos), p < s.shape.length := by
+        intro p hp; obtain ⟨m, hm, rfl⟩ := List.mem_map.1 hp; exact hpos m hm
+      have hM' : order_s = (M.map (·.pos)).map (nameAt s.shape) := by
+        rw [hM, List.map_map]; rfl
+      simp only [hs, renameLayout, hM', mapM_positionOf hnod _ hP, Outcome.ok.injEq,
+        DataLayout.linear.injEq] at hl
+      rw [← hl, List.map_map]
+      simp only [View.shape]
+      exact map_congr_mem (fun m _ => (hname m.pos).symm)
 
-/-- the reindexing shared by `TensorAccess` and `TensorTranspose` -/
-theorem lin_reindex (s : View ν α) (m : DimensionMappings) (hm : MappingOK m s.shape.length)
-    (P : List Nat) (h1 : P.length = s.shape.length) (h2 : P.Nodup) (h3 : ∀ p ∈ P, p < s.shape.length)
-    (leaf : Nat) (sl : List Nat)
-    (h7 : ∀ idx, inBounds (lens s.shape) idx = true →
-      s.specCell idx = some (leaf, ravel sl (P.map fun p => idx.getD p 0))) :
-    (P.map (m.sourceToRequested.getD · 0)).length = s.shape.length ∧
-    (P.map (m.sourceToRequested.getD · 0)).Nodup ∧
-    (∀ p ∈ P.map (m.sourceToRequested.getD · 0), p < s.shape.length) ∧
-    ∀ idx, inBounds (lens s.shape) (m.mapDimensionsToSource idx) = true →
-      s.specCell (m.mapDimensionsToSource idx) =
-        some (leaf, ravel sl ((P.map (m.sourceToRequested.getD · 0)).map fun p => idx.getD p 0)) := by
-  refine ⟨by simp [h1], ?_, ?_, ?_⟩
-  · refine List.Nodup.map_on ?_ h2
+/-- the reindexing shared by `TensorAccess` and `TensorTranspose`: positions go through the
+    source→requested table, everything else stays -/
+theorem lin_reindex (s v : View ν α) (m : DimensionMappings) (hm : MappingOK m s.shape.length)
+    (hgood : GoodShape s.shape) {order_s : List ν} (hlin : Lin s order_s)
+    (hlen : v.shape.length = s.shape.length)
+    (hlenAt : ∀ p, p < s.shape.length →
+      lenAt v.shape (m.sourceToRequested.getD p 0) = lenAt s.shape p)
+    (hlens : lens v.shape = lens (m.mapShapeToRequested s.shape))
+    (hleaves : v.leaves = s.leaves)
+    (hcell : ∀ idx, v.specCell idx =
+      s.specCell (coords s.shape (namesOf (m.mapShapeToRequested s.shape)) idx)) :
+    ∃ (M : List MemDim) (leaf : Nat) (data : List α),
+      (order_s = M.map (fun x => nameAt s.shape x.pos) ∧ ∀ x ∈ M, x.pos < s.shape.length) ∧
+      M.length = v.shape.length ∧
+      ((M.map fun x => (⟨m.sourceToRequested.getD x.pos 0, x.start, x.full⟩ : MemDim)).map (·.pos)).Nodup ∧
+      (∀ x ∈ M.map fun x => (⟨m.sourceToRequested.getD x.pos 0, x.start, x.full⟩ : MemDim),
+        x.pos < v.shape.length) ∧
+      v.leaves = [(leaf, data)] ∧ data.length = prod (M.map (·.full)) ∧
+      (∀ x ∈ M.map fun x => (⟨m.sourceToRequested.getD x.pos 0, x.start, x.full⟩ : MemDim),
+        x.start + lenAt v.shape x.pos ≤ x.full) ∧
+      ∀ idx, inBounds (lens v.shape) idx = true →
+        v.specCell idx = some (leaf, ravel (M.map (·.full))
+          (M.map fun x => idx.getD (m.sourceToRequested.getD x.pos 0) 0 + x.start)) := by
+  obtain ⟨M, leaf, data, h1, h2, h3, h4, h5, h6, h6b, h7⟩ := hlin
+  refine ⟨M, leaf, data, ⟨h4, h3⟩, by omega, ?_, ?_, by rw [hleaves]; exact h5, h6, ?_, ?_⟩
+  · rw [List.map_map]
+    have : (M.map ((fun x : MemDim => x.pos) ∘ fun x => (⟨m.sourceToRequested.getD x.pos 0, x.start, x.full⟩ : MemDim))) =
+        (M.map (·.pos)).map (m.sourceToRequested.getD · 0) := by
+      rw [List.map_map]; rfl
+    rw [this]
+    refine List.Nodup.map_on ?_ h2
     intro a ha b hb hab
-    have ea := (hm.2.2.1 a (h3 a ha)).2
-    have eb := (hm.2.2.1 b (h3 b hb)).2
+    obtain ⟨x, hx, rfl⟩ := List.mem_map.1 ha
+    obtain ⟨y, hy, rfl⟩ := List.mem_map.1 hb
+    have ea := (hm.2.2.1 _ (h3 x hx)).2
+    have eb := (hm.2.2.1 _ (h3 y hy)).2
     rw [hab] at ea
     omega
-  · intro q hq
-    obtain ⟨p, hp, rfl⟩ := List.mem_map.1 hq
-    exact (hm.2.2.1 p (h3 p hp)).1
+  · intro x hx
+    obtain ⟨y, hy, rfl⟩ := List.mem_map.1 hx
+    rw [hlen]; exact (hm.2.2.1 _ (h3 y hy)).1
+  · intro x hx
+    obtain ⟨y, hy, rfl⟩ := List.mem_map.1 hx
+    simp only
+    rw [hlenAt _ (h3 y hy)]; exact h6b y hy
   · intro idx hin
-    rw [h7 _ hin, List.map_map]
+    rw [hlens] at hin
+    have la := inBounds_length hin
+    simp only [lens_length, mapShapeToRequested_length hm] at la
+    rw [hcell, ← mapDimensionsToSource_eq_coords_of_good hgood hm,
+      h7 _ (by rw [access_inBounds hm la]; exact hin)]
     congr 3
     apply map_congr_mem
-    intro p hp
-    simp only [Function.comp]
-    exact mapDimensionsToSource_getD hm idx (h3 p hp)
-
-theorem getD_reindex {m : DimensionMappings} {sh : Shape ν} (hm : MappingOK m sh.length) {p : Nat}
-    (hp : p < sh.length) :
-    (m.mapShapeToRequested sh).getD (m.sourceToRequested.getD p 0) (default, 0) =
-      sh.getD p (default, 0) := by
-  obtain ⟨hlt, hinv⟩ := hm.2.2.1 p hp
-  rw [mapShapeToRequested_getElem hm hlt, hinv]
+    intro x hx
+    rw [mapDimensionsToSource_getD hm idx (h3 x hx)]
 
 theorem lin_access (s : View ν α) (m : DimensionMappings) (hw : (View.access s m).WF)
     (ih : ∀ order, s.layout = .ok (.linear order) → Lin s order) (order : List ν)
@@ -190,30 +259,19 @@ theorem lin_access (s : View ν α) (m : DimensionMappings) (hw : (View.access s
   have hgood := (View.correct s hw.1).1
   have hlen := mapShapeToRequested_length hw.2
   simp only [View.layout] at hl
-  obtain ⟨P, leaf, data, h1, h2, h3, h4, h5, h6, h7⟩ := ih order hl
-  obtain ⟨r1, r2, r3, r4⟩ := lin_reindex s m hw.2 P h1 h2 h3 leaf (P.map (lenAt s.shape)) h7
-  have hname : (P.map (m.sourceToRequested.getD · 0)).map (nameAt (m.mapShapeToRequested s.shape)) =
-      P.map (nameAt s.shape) := by
-    rw [List.map_map]
+  obtain ⟨M, leaf, data, ⟨h4, h3⟩, r1, r2, r3, r5, r6, r6b, r7⟩ :=
+    lin_reindex s (View.access s m) m hw.2 hgood (ih order hl) (by simpa [View.shape] using hlen)
+      (by intro p hp; simp only [View.shape, lenAt, getD_reindex hw.2 hp])
+      (by simp [View.shape]) rfl (fun _ => rfl)
+  refine ⟨M.map fun x => ⟨m.sourceToRequested.getD x.pos 0, x.start, x.full⟩, leaf, data,
+    by simpa using r1, r2, r3, ?_, r5, by simpa [List.map_map, Function.comp_def] using r6, r6b, ?_⟩
+  · rw [h4, List.map_map]
     apply map_congr_mem
-    intro p hp
-    simp only [Function.comp, nameAt, getD_reindex hw.2 (h3 p hp)]
-  have hlens : (P.map (m.sourceToRequested.getD · 0)).map (lenAt (m.mapShapeToRequested s.shape)) =
-      P.map (lenAt s.shape) := by
-    rw [List.map_map]
-    apply map_congr_mem
-    intro p hp
-    simp only [Function.comp, lenAt, getD_reindex hw.2 (h3 p hp)]
-  refine ⟨P.map (m.sourceToRequested.getD · 0), leaf, data, by simpa [View.shape, hlen] using r1, r2,
-    by simpa [View.shape, hlen] using r3, by simp only [View.shape]; rw [hname]; exact h4,
-    by simpa [View.leaves] using h5, by simp only [View.shape]; rw [hlens]; exact h6, ?_⟩
-  intro idx hin
-  simp only [View.shape] at hin
-  have la := inBounds_length hin
-  simp only [lens_length, hlen] at la
-  simp only [View.specCell, View.shape]
-  rw [← mapDimensionsToSource_eq_coords_of_good hgood hw.2, hlens]
-  exact r4 idx (by rw [access_inBounds hw.2 la, hin])
+    intro x hx
+    simp only [Function.comp, View.shape, nameAt, getD_reindex hw.2 (h3 x hx)]
+  · intro idx hin
+    rw [r7 idx hin]
+    simp [List.map_map, Function.comp_def]
 
 theorem lin_transpose (s : View ν α) (m : DimensionMappings) (hw : (View.transpose s m).WF)
     (ih : ∀ order, s.layout = .ok (.linear order) → Lin s order) (order : List ν)
@@ -230,47 +288,35 @@ theorem lin_transpose (s : View ν α) (m : DimensionMappings) (hw : (View.trans
     | nonLinear => simp [hs] at hl
     | other => simp [hs] at hl
     | linear order_s =>
-      obtain ⟨P, leaf, data, h1, h2, h3, h4, h5, h6, h7⟩ := ih order_s hs
-      simp only [hs, mapLinearDataLayoutToTransposed, h4, mapM_positionOf hnod P h3, Outcome.ok.injEq,
-        DataLayout.linear.injEq] at hl
-      obtain ⟨r1, r2, r3, r4⟩ := lin_reindex s m hw.2 P h1 h2 h3 leaf (P.map (lenAt s.shape)) h7
       have hvn : ∀ q, nameAt (transposeShape s.shape (m.mapShapeToRequested s.shape)) q = nameAt s.shape q := by
         intro q; rw [nameAt_eq_names_getD, nameAt_eq_names_getD, transposeShape_names hlen]
       have hvl : ∀ q, lenAt (transposeShape s.shape (m.mapShapeToRequested s.shape)) q =
           lenAt (m.mapShapeToRequested s.shape) q := by
         intro q; rw [lenAt_eq_lens_getD, lenAt_eq_lens_getD, transposeShape_lens hlen]
-      have hlens : (P.map (m.sourceToRequested.getD · 0)).map
-          (lenAt (transposeShape s.shape (m.mapShapeToRequested s.shape))) = P.map (lenAt s.shape) := by
-        rw [List.map_map]
-        apply map_congr_mem
-        intro p hp
-        show lenAt (transposeShape s.shape (m.mapShapeToRequested s.shape)) (m.sourceToRequested.getD p 0) =
-          lenAt s.shape p
-        rw [hvl]
-        simp only [lenAt, getD_reindex hw.2 (h3 p hp)]
-      refine ⟨P.map (m.sourceToRequested.getD · 0), leaf, data,
-        by simpa [View.shape, transposeShape_length hlen] using r1, r2,
-        by simpa [View.shape, transposeShape_length hlen] using r3, ?_,
-        by simpa [View.leaves] using h5, by simp only [View.shape]; rw [hlens]; exact h6, ?_⟩
+      obtain ⟨M, leaf, data, ⟨h4, h3⟩, r1, r2, r3, r5, r6, r6b, r7⟩ :=
+        lin_reindex s (View.transpose s m) m hw.2 hgood (ih order_s hs)
+          (by simp [View.shape, transposeShape_length hlen])
+          (by intro p hp; simp only [View.shape]; rw [hvl]; simp only [lenAt, getD_reindex hw.2 hp])
+          (by simp only [View.shape]; exact transposeShape_lens hlen) rfl (fun _ => rfl)
+      have hP : ∀ p ∈ M.map (·.pos), p < s.shape.length := by
+        intro p hp; obtain ⟨x, hx, rfl⟩ := List.mem_map.1 hp; exact h3 x hx
+      have hM' : order_s = (M.map (·.pos)).map (nameAt s.shape) := by
+        rw [h4, List.map_map]; rfl
+      simp only [hs, mapLinearDataLayoutToTransposed, hM', mapM_positionOf hnod _ hP, Outcome.ok.injEq,
+        DataLayout.linear.injEq] at hl
+      refine ⟨M.map fun x => ⟨m.sourceToRequested.getD x.pos 0, x.start, x.full⟩, leaf, data,
+        by simpa using r1, r2, r3, ?_, r5, by simpa [List.map_map, Function.comp_def] using r6, r6b, ?_⟩
       · rw [← hl]
-        simp only [View.shape, List.map_map]
+        simp only [List.map_map]
         apply map_congr_mem
-        intro p _
-        show (s.shape.getD (m.sourceToRequested.getD p 0) (default, 0)).1 =
-          nameAt (transposeShape s.shape (m.mapShapeToRequested s.shape)) (m.sourceToRequested.getD p 0)
+        intro x _
+        show (s.shape.getD (m.sourceToRequested.getD x.pos 0) (default, 0)).1 =
+          nameAt (View.transpose s m).shape (m.sourceToRequested.getD x.pos 0)
+        simp only [View.shape]
         rw [hvn]; rfl
       · intro idx hin
-        simp only [View.shape, transposeShape_lens hlen] at hin
-        have la := inBounds_length hin
-        simp only [lens_length, hlen] at la
-        simp only [View.specCell, View.shape]
-        rw [← mapDimensionsToSource_eq_coords_of_good hgood hw.2, hlens]
-        exact r4 idx (by rw [access_inBounds hw.2 la, hin])
-
-theorem nameAt_inj {sh : Shape ν} (hn : (namesOf sh).Nodup) {p q : Nat} (hp : p < sh.length)
-    (hq : q < sh.length) (h : nameAt sh p = nameAt sh q) : p = q := by
-  simp only [nameAt, getD_eq_getElem' hp, getD_eq_getElem' hq] at h
-  exact nodup_getElem_inj hn (by simpa using hp) (by simpa using hq) (by simpa [namesOf] using h)
+        rw [r7 idx hin]
+        simp [List.map_map, Function.comp_def]
 
 /-- `TensorRefMatrix` over `MatrixRefTensor` over a 2-dimensional view: row major and column
     major sources -/
@@ -284,36 +330,29 @@ theorem lin_matrixOf (s : View ν α) (r c : ν) (hw : (View.matrixOf s r c).WF)
   have hlens := matrixOf_lens s r c hl2
   have hlenAt : ∀ p, lenAt (View.matrixOf s r c).shape p = lenAt s.shape p := by
     intro p; rw [lenAt_eq_lens_getD, lenAt_eq_lens_getD, hlens]
-  -- the shared conclusion once the position list of the source is known
+  -- the shared conclusion once the order of the source is known to name positions a, b
   have finish : ∀ (a b : Nat), a < 2 → b < 2 → Lin s [nameAt s.shape a, nameAt s.shape b] →
       order = [nameAt (View.matrixOf s r c).shape a, nameAt (View.matrixOf s r c).shape b] →
       Lin (View.matrixOf s r c) order := by
     intro a b ha hb hlin ho
-    obtain ⟨P, leaf, data, h1, h2, h3, h4, h5, h6, h7⟩ := hlin
-    have hP : P = [a, b] := by
-      rw [hl2] at h1
-      match P, h1 with
-      | [x, y], _ =>
-        simp only [List.map_cons, List.map_nil, List.cons.injEq, and_true] at h4
-        have hx := h3 x (by simp)
-        have hy := h3 y (by simp)
-        rw [nameAt_inj hnod (by omega) hx h4.1, nameAt_inj hnod (by omega) hy h4.2]
-    subst hP
-    refine ⟨[a, b], leaf, data, by simp [View.shape], h2, by simp [View.shape]; omega, by simpa using ho,
-      by simpa [View.leaves] using h5, ?_, ?_⟩
-    · simp only [List.map_cons, List.map_nil, hlenAt] at h6 ⊢; exact h6
-    · intro idx hin
-      rw [hlens] at hin
-      simp only [View.specCell, List.map_cons, List.map_nil, hlenAt]
-      simpa using h7 idx hin
+    refine lin_same s _ hlin (by simp [View.shape, hl2]) hlenAt hlens rfl (fun _ => rfl) ?_
+    intro M hlenM hM hpos
+    rw [hl2] at hlenM
+    match M, hlenM, hM with
+    | [x, y], _, hM =>
+      simp only [List.map_cons, List.map_nil, List.cons.injEq, and_true] at hM
+      have hx := hpos x (by simp)
+      have hy := hpos y (by simp)
+      have ex : a = x.pos := nameAt_inj hnod (by omega) hx hM.1
+      have ey : b = y.pos := nameAt_inj hnod (by omega) hy hM.2
+      simp only [List.map_cons, List.map_nil, ← ex, ← ey]
+      exact ho
   simp only [View.layout] at hl
   cases hs : s.layout with
   | panic k => simp [hs] at hl
   | ok lay =>
     simp only [hs, Outcome.ok.injEq] at hl
     simp only [matrixRefTensorLayout] at hl
-    have hn0 : (s.shape.getD 0 (default, 0)).1 = nameAt s.shape 0 := rfl
-    have hn1 : (s.shape.getD 1 (default, 0)).1 = nameAt s.shape 1 := rfl
     split at hl
     · rename_i hrow
       simp only [tensorRefMatrixLayout, DataLayout.linear.injEq] at hl
@@ -325,6 +364,91 @@ theorem lin_matrixOf (s : View ν α) (r c : ν) (hw : (View.matrixOf s r c).WF)
         refine finish 1 0 (by omega) (by omega) (ih _ (by rw [hs, hcol]; rfl)) ?_
         rw [← hl]; simp [View.shape, nameAt]
       · simp [tensorRefMatrixLayout] at hl
+
+/-- `MatrixRange` between the two interop wrappers: the claimed order is the source's, the view
+    starts later inside the leaf along both dimensions -/
+theorem lin_mrange (s : View ν α) (rows columns : IndexRange) (hw : (View.mrange s rows columns).WF)
+    (ih : ∀ order, s.layout = .ok (.linear order) → Lin s order) (order : List ν)
+    (hl : (View.mrange s rows columns).layout = .ok (.linear order)) :
+    Lin (View.mrange s rows columns) order := by
+  simp only [View.WF] at hw
+  obtain ⟨hws, hl2, hr⟩ := hw
+  have hsh : ∃ d0 d1, s.shape = [d0, d1] := by
+    match hsq : s.shape, hl2 with
+    | [d0, d1], _ => exact ⟨d0, d1, rfl⟩
+  obtain ⟨d0, d1, hsq⟩ := hsh
+  rw [hsq] at hr
+  simp only [RangesOK] at hr
+  obtain ⟨⟨hr1, hr2⟩, ⟨hc1, hc2⟩, _⟩ := hr
+  -- the layout passes through unchanged when it is linear
+  have hsame : s.layout = .ok (.linear order) := by
+    simp only [View.layout] at hl
+    cases hs : s.layout with
+    | panic k => simp [hs] at hl
+    | ok lay =>
+      simp only [hs, Outcome.ok.injEq, matrixRefTensorLayout] at hl
+      split at hl
+      · rename_i hrow; simp only [tensorRefMatrixLayout] at hl; rw [hrow, ← hl]
+      · split at hl
+        · rename_i hcol; simp only [tensorRefMatrixLayout] at hl; rw [hcol, ← hl]
+        · simp [tensorRefMatrixLayout] at hl
+  obtain ⟨M, leaf, data, h1, h2, h3, h4, h5, h6, h6b, h7⟩ := ih order hsame
+  have hvs : (View.mrange s rows columns).shape = [(d0.1, rows.length), (d1.1, columns.length)] := by
+    simp [View.shape, hsq, rangeShape]
+  let st : Nat → Nat := fun p => if p = 0 then rows.start else columns.start
+  refine ⟨M.map fun x => ⟨x.pos, x.start + st x.pos, x.full⟩, leaf, data, by simp [hvs, h1, hl2],
+    by simpa [List.map_map, Function.comp_def] using h2, ?_, ?_, by simpa [View.leaves] using h5,
+    by simpa [List.map_map, Function.comp_def] using h6, ?_, ?_⟩
+  · intro x hx
+    obtain ⟨y, hy, rfl⟩ := List.mem_map.1 hx
+    have := h3 y hy
+    simp only [hvs, List.length_cons, List.length_nil]; omega
+  · rw [h4, List.map_map]
+    apply map_congr_mem
+    intro x hx
+    have hp := h3 x hx
+    rw [hl2] at hp
+    simp only [Function.comp, hvs, hsq, nameAt]
+    rcases Nat.lt_or_ge x.pos 1 with h | h
+    · have : x.pos = 0 := by omega
+      simp [this]
+    · have : x.pos = 1 := by omega
+      simp [this]
+  · intro x hx
+    obtain ⟨y, hy, rfl⟩ := List.mem_map.1 hx
+    have hp := h3 y hy
+    rw [hl2] at hp
+    have hb := h6b y hy
+    simp only [hvs, hsq, lenAt, st] at hb ⊢
+    rcases Nat.lt_or_ge y.pos 1 with h | h
+    · have e : y.pos = 0 := by omega
+      simp only [e, List.getD_cons_zero, if_true] at hb ⊢; omega
+    · have e : y.pos = 1 := by omega
+      simp only [e, List.getD_cons_succ, List.getD_cons_zero] at hb ⊢
+      simp; omega
+  · intro idx hin
+    rw [hvs] at hin
+    have la := inBounds_length hin
+    match idx, la with
+    | [i0, i1], _ =>
+      simp only [lens_cons, lens_nil, inBounds_cons_cons, inBounds_nil_nil, Bool.and_true,
+        Bool.and_eq_true, decide_eq_true_eq] at hin
+      have hin' : inBounds (lens s.shape) [i0 + rows.start, i1 + columns.start] = true := by
+        simp [hsq]; omega
+      simp only [View.specCell, rangeCoords, List.zipWith_cons_cons, List.zipWith_nil_right]
+      rw [h7 _ hin']
+      simp only [List.map_map, Function.comp_def]
+      congr 3
+      apply map_congr_mem
+      intro x hx
+      have hp := h3 x hx
+      rw [hl2] at hp
+      simp only [st]
+      rcases Nat.lt_or_ge x.pos 1 with h | h
+      · have e : x.pos = 0 := by omega
+        simp [e]; omega
+      · have e : x.pos = 1 := by omega
+        simp [e]; omega
 
 /-- every well-formed view that claims a linear layout satisfies the invariant -/
 theorem View.layout_lin (v : View ν α) : v.WF → ∀ order, v.layout = .ok (.linear order) → Lin v order := by
@@ -340,12 +464,15 @@ theorem View.layout_lin (v : View ν α) : v.WF → ∀ order, v.layout = .ok (.
   | matrixOf s r c ih =>
     intro hw order hl
     exact lin_matrixOf s r c hw (ih (by simp only [View.WF] at hw; exact hw.1)) order hl
+  | mrange s rows columns ih =>
+    intro hw order hl
+    exact lin_mrange s rows columns hw (ih (by simp only [View.WF] at hw; exact hw.1)) order hl
+  | mreverse s rows columns ih => intro _ order hl; simp [View.layout] at hl
   | tmap s ih =>
     intro hw order hl
     simp only [View.WF] at hw
     simp only [View.layout] at hl
-    obtain ⟨P, leaf, data, h1, h2, h3, h4, h5, h6, h7⟩ := ih hw order hl
-    exact ⟨P, leaf, data, h1, h2, h3, h4, h5, h6, h7⟩
+    exact lin_same s _ (ih hw order hl) rfl (fun _ => rfl) rfl rfl (fun _ => rfl) (fun M _ hM _ => hM)
   | range s rs ih => intro _ order hl; simp [View.layout] at hl
   | mask s ms ih => intro _ order hl; simp [View.layout] at hl
   | index s p ih => intro _ order hl; simp [View.layout] at hl
@@ -363,80 +490,186 @@ theorem View.layout_lin (v : View ν α) : v.WF → ∀ order, v.layout = .ok (.
   | stack ss along ih => intro _ order hl; simp [View.layout] at hl
   | chain ss along ih => intro _ order hl; simp [View.layout] at hl
 
+theorem prod_le_prod_of_le : ∀ (T : List (Nat × Nat × Nat)),
+    (∀ t ∈ T, t.1 ≤ t.2.2) → prod (T.map (·.1)) ≤ prod (T.map (·.2.2))
+  | [], _ => by simp
+  | t :: ts, h => by
+    simp only [List.map_cons, prod_cons]
+    exact Nat.mul_le_mul (h t (by simp)) (prod_le_prod_of_le ts (fun x hx => h x (by simp [hx])))
+
+theorem prod_pos_of_pos : ∀ (l : List Nat), (∀ x ∈ l, 1 ≤ x) → 1 ≤ prod l
+  | [], _ => by simp
+  | x :: xs, h => by
+    simp only [prod_cons]
+    exact Nat.mul_le_mul (h x (by simp)) (prod_pos_of_pos xs (fun y hy => h y (by simp [hy])))
+
+/-- a view that has as many elements as the leaf it lies in is the whole leaf:
+    triples are (length, start, full extent) per dimension -/
+theorem tight_of_prod_eq : ∀ (T : List (Nat × Nat × Nat)),
+    (∀ t ∈ T, 1 ≤ t.1 ∧ t.2.1 + t.1 ≤ t.2.2) →
+    prod (T.map (·.1)) = prod (T.map (·.2.2)) → ∀ t ∈ T, t.2.1 = 0 ∧ t.2.2 = t.1
+  | [], _, _ => by simp
+  | t :: ts, h, hp => by
+    have ht := h t (by simp)
+    have hts : ∀ x ∈ ts, 1 ≤ x.1 ∧ x.2.1 + x.1 ≤ x.2.2 := fun x hx => h x (by simp [hx])
+    have hle := prod_le_prod_of_le ts (fun x hx => by have := hts x hx; omega)
+    have hpos : 1 ≤ prod (ts.map (·.1)) :=
+      prod_pos_of_pos _ (fun x hx => by
+        obtain ⟨y, hy, rfl⟩ := List.mem_map.1 hx; exact (hts y hy).1)
+    simp only [List.map_cons, prod_cons] at hp
+    have hl : t.1 = t.2.2 := by
+      rcases Nat.lt_or_ge t.1 t.2.2 with hlt | hge
+      · exfalso
+        have h1 : t.1 * prod (ts.map (·.1)) < t.2.2 * prod (ts.map (·.1)) :=
+          Nat.mul_lt_mul_of_pos_right hlt hpos
+        have h2 : t.2.2 * prod (ts.map (·.1)) ≤ t.2.2 * prod (ts.map (·.2.2)) :=
+          Nat.mul_le_mul_left _ hle
+        omega
+      · omega
+    have hrest : prod (ts.map (·.1)) = prod (ts.map (·.2.2)) := by
+      rw [hl] at hp
+      exact Nat.eq_of_mul_eq_mul_left (by omega) hp
+    intro x hx
+    simp only [List.mem_cons] at hx
+    rcases hx with rfl | hx
+    · exact ⟨by omega, hl.symm⟩
+    · exact tight_of_prod_eq ts hts hrest x hx
+
 /-- **Memory order.**  If a well-formed view claims `Linear(order)`, then `order` is a reordering
     of the view's dimension names (`TensorAccess::from_memory_order` cannot panic), and the access
-    in that order visits, in its own row-major order, the offsets `0, 1, 2, …` of the single leaf
-    the view is over, all of them. -/
+    in that order resolves the tuple `idx` to the row-major offset of `idx + starts` in the full
+    extents `fulls` of the single leaf the view lies in (`starts + lengths ≤ fulls` per
+    dimension); when the view has as many elements as the leaf, `starts = 0` and `fulls` are the
+    view's own lengths, i.e. the offsets are `0, 1, 2, …`. -/
 theorem View.layout_memory_order (v : View ν α) (hw : v.WF) (order : List ν)
     (hl : v.layout = .ok (.linear order)) :
     (∃ m, DimensionMappings.new v.shape order = some m) ∧
     ∀ m, DimensionMappings.new v.shape order = some m →
-      ∃ leaf data, v.leaves = [(leaf, data)] ∧
-        data.length = prod (lens (View.access v m).shape) ∧
-        ∀ idx, inBounds (lens (View.access v m).shape) idx = true →
-          (View.access v m).get idx = .ok (some (leaf, ravel (lens (View.access v m).shape) idx)) := by
-  obtain ⟨P, leaf, data, h1, h2, h3, h4, h5, h6, h7⟩ := View.layout_lin v hw order hl
+      ∃ (leaf : Nat) (data : List α) (fulls starts : List Nat), v.leaves = [(leaf, data)] ∧
+        data.length = prod fulls ∧ starts.length = v.shape.length ∧
+        (∀ idx, inBounds (lens (View.access v m).shape) idx = true →
+          inBounds fulls (List.zipWith (· + ·) idx starts) = true ∧
+          (View.access v m).get idx =
+            .ok (some (leaf, ravel fulls (List.zipWith (· + ·) idx starts)))) ∧
+        (prod (lens (View.access v m).shape) = data.length →
+          fulls = lens (View.access v m).shape ∧ ∀ x ∈ starts, x = 0) := by
   have hgood := (View.correct v hw).1
   have hnod := (goodShape_iff.1 hgood).1
-  have honto := mem_of_nodup_lt h1 h2 h3
   constructor
-  · apply new_some_of_same_names
+  · obtain ⟨M, leaf, data, h1, h2, h3, h4, _⟩ := View.layout_lin v hw order hl
+    have honto := mem_of_nodup_lt (l := M.map (·.pos)) (by simpa using h1) h2
+      (by intro p hp; obtain ⟨x, hx, rfl⟩ := List.mem_map.1 hp; exact h3 x hx)
+    apply new_some_of_same_names
     · rw [h4]; simp [h1]
     · intro n hn
       obtain ⟨p, hp, rfl⟩ := List.getElem_of_mem hn
       simp only [namesOf_length] at hp
+      obtain ⟨x, hx, hxp⟩ := List.mem_map.1 (honto p hp)
       rw [h4]
-      refine List.mem_map.2 ⟨p, honto p hp, ?_⟩
-      simp only [nameAt, getD_eq_getElem' hp, namesOf, List.getElem_map]
+      refine List.mem_map.2 ⟨x, hx, ?_⟩
+      simp only [hxp, nameAt, getD_eq_getElem' hp, namesOf, List.getElem_map]
     · intro r hr
       rw [h4] at hr
-      obtain ⟨p, hp, rfl⟩ := List.mem_map.1 hr
-      have hp' := h3 p hp
+      obtain ⟨x, hx, rfl⟩ := List.mem_map.1 hr
+      have hp' := h3 x hx
       simp only [nameAt, getD_eq_getElem' hp', namesOf]
       exact List.mem_map.2 ⟨_, List.getElem_mem hp', rfl⟩
   · intro m hm
     have hok := new_mappingOK hnod hm
-    obtain ⟨_, _, t3, t4⟩ := new_tables hm
-    -- the table requested→source is exactly `P`
-    have hr2s : m.requestedToSource = P := by
-      apply List.ext_getElem (by rw [t3, h1])
-      intro d hd1 hd2
-      have hd : d < v.shape.length := by omega
-      obtain ⟨_, hlt, _, hname⟩ := t4 d hd
-      rw [getD_eq_getElem' hd1] at hlt hname
-      have hpd := h3 _ (List.getElem_mem hd2)
-      have : order.getD d default = nameAt v.shape P[d] := by
-        rw [h4, getD_eq_getElem' (by simp; omega)]; simp
-      rw [this] at hname
-      simp only [nameAt, getD_eq_getElem' hlt, getD_eq_getElem' hpd] at hname
-      exact nodup_getElem_inj hnod (by simpa using hlt) (by simpa using hpd)
-        (by simpa [namesOf] using hname)
-    have hshape : lens (View.access v m).shape = P.map (lenAt v.shape) := by
-      simp only [View.shape, DimensionMappings.mapShapeToRequested, hr2s, lens, List.map_map]
-      rfl
+    obtain ⟨tlen, _, _, t4⟩ := new_tables hm
     have hwa : (View.access v m).WF := by simp only [View.WF]; exact ⟨hw, hok⟩
-    refine ⟨leaf, data, h5, by rw [hshape]; exact h6, ?_⟩
-    intro idx hin
     have hca := View.correct _ hwa
-    have la := inBounds_length hin
-    simp only [lens_length] at la
-    rw [hca.2 idx la (bounded_of_inBounds hin hca.1.lens_le)]
-    simp only [View.specGet, hin, if_true, View.specCell]
-    have la' : idx.length = v.shape.length := by
-      rw [la]; simp only [View.shape]; exact mapShapeToRequested_length hok
-    rw [← mapDimensionsToSource_eq_coords_of_good hgood hok,
-      h7 _ (by rw [access_inBounds hok la']; simpa [View.shape] using hin), hshape]
-    congr 4
-    -- reading the reindexed tuple at the positions `P` gives the tuple back
-    apply List.ext_getElem (by simp [h1, la'])
-    intro d hd1 hd2
-    have hd : d < v.shape.length := by omega
-    have hdP : d < P.length := by omega
-    simp only [List.getElem_map]
-    rw [mapDimensionsToSource_getD hok idx (h3 _ (List.getElem_mem hdP))]
-    have : P[d] = m.requestedToSource.getD d 0 := by
-      rw [getD_eq_getElem' (by rw [hr2s]; exact hdP)]; simp [hr2s]
-    rw [this, (hok.2.2.2 d hd).2, getD_eq_getElem' hd2]
+    have hla : (View.access v m).layout = .ok (.linear order) := by simpa [View.layout] using hl
+    have hD : (View.access v m).shape.length = v.shape.length := by
+      simp only [View.shape]; exact mapShapeToRequested_length hok
+    have hnoda := (goodShape_iff.1 hca.1).1
+    -- the access lists the dimensions in the claimed order
+    have hnames : ∀ d, d < v.shape.length → nameAt (View.access v m).shape d = order.getD d default := by
+      intro d hd
+      obtain ⟨_, _, _, hname⟩ := t4 d hd
+      simp only [View.shape, nameAt, mapShapeToRequested_getElem hok hd]
+      exact hname
+    obtain ⟨M, leaf, data, h1, h2, h3, h4, h5, h6, h6b, h7⟩ :=
+      lin_access v m hwa (fun o ho => View.layout_lin v hw o ho) order hla
+    rw [hD] at h1 h3
+    -- so the k-th dimension in memory order is the k-th of its shape
+    have hpos : ∀ k (hk : k < M.length), (M[k]).pos = k := by
+      intro k hk
+      have hk' : k < v.shape.length := by omega
+      have e1 : order.getD k default = nameAt (View.access v m).shape (M[k]).pos := by
+        rw [h4, getD_eq_getElem' (by simp; omega)]; simp
+      rw [← hnames k hk'] at e1
+      exact (nameAt_inj hnoda (by rw [hD]; exact hk') (by rw [hD]; exact h3 _ (List.getElem_mem hk)) e1).symm
+    have hleaves : v.leaves = [(leaf, data)] := by simpa [View.leaves] using h5
+    have hcoords : ∀ idx : List Nat, idx.length = v.shape.length →
+        (M.map fun x => idx.getD x.pos 0 + x.start) = List.zipWith (· + ·) idx (M.map (·.start)) := by
+      intro idx hlen
+      apply List.ext_getElem (by simp [h1, hlen])
+      intro k hk1 hk2
+      have hk : k < M.length := by simpa using hk1
+      simp only [List.getElem_map, List.getElem_zipWith, hpos k hk]
+      rw [getD_eq_getElem' (by omega)]
+    have hlensa : lens (View.access v m).shape = M.map fun x => lenAt (View.access v m).shape x.pos := by
+      rw [← map_range_lenAt, hD, ← h1]
+      apply List.ext_getElem (by simp)
+      intro k hk1 hk2
+      have hk : k < M.length := by simpa using hk1
+      simp [hpos k hk]
+    refine ⟨leaf, data, M.map (·.full), M.map (·.start), hleaves, h6, by simp [h1], ?_, ?_⟩
+    · intro idx hin
+      have la := inBounds_length hin
+      simp only [lens_length, hD] at la
+      constructor
+      · rw [← hcoords idx la, inBounds_iff]
+        refine ⟨by simp, ?_⟩
+        intro k hk
+        simp only [List.length_map] at hk
+        rw [getD_eq_getElem' (by simpa using hk), getD_eq_getElem' (by simpa using hk)]
+        simp only [List.getElem_map, hpos k hk]
+        have hb := h6b _ (List.getElem_mem hk)
+        rw [hpos k hk] at hb
+        have hlt := (inBounds_iff.1 hin).2 k (by simp [hD]; omega)
+        rw [← lenAt_eq_lens_getD] at hlt
+        omega
+      · rw [hca.2 idx (by rw [hD]; exact la) (bounded_of_inBounds hin hca.1.lens_le)]
+        simp only [View.specGet, hin, if_true]
+        rw [h7 idx hin, hcoords idx la]
+    · intro hp
+      rw [h6, hlensa] at hp
+      have htight := tight_of_prod_eq
+        (M.map fun x => (lenAt (View.access v m).shape x.pos, x.start, x.full))
+        (by
+          intro t ht
+          obtain ⟨x, hx, rfl⟩ := List.mem_map.1 ht
+          refine ⟨?_, by have := h6b x hx; omega⟩
+          have hx3 := h3 x hx
+          have : (View.access v m).shape.getD x.pos (default, 0) ∈ (View.access v m).shape := by
+            rw [getD_eq_getElem' (by rw [hD]; exact hx3)]; exact List.getElem_mem _
+          exact hca.1.1.2 _ this)
+        (by simpa [List.map_map, Function.comp_def] using hp)
+      constructor
+      · rw [hlensa]
+        apply map_congr_mem
+        intro x hx
+        exact (htight _ (List.mem_map.2 ⟨x, hx, rfl⟩)).2
+      · intro y hy
+        obtain ⟨x, hx, rfl⟩ := List.mem_map.1 hy
+        exact (htight _ (List.mem_map.2 ⟨x, hx, rfl⟩)).1
+
+/-- adding the same starts keeps the lexicographic order of index tuples -/
+theorem lex_zipWith_add : ∀ (a b starts : List Nat), a.length = b.length → a.length = starts.length →
+    a < b → List.zipWith (· + ·) a starts < List.zipWith (· + ·) b starts
+  | [], [], _, _, _, h => by simp at h
+  | x :: xs, y :: ys, s :: ss, hab, has, h => by
+    simp only [List.length_cons, Nat.add_right_cancel_iff] at hab has
+    rw [List.cons_lt_cons_iff] at h
+    simp only [List.zipWith_cons_cons, List.cons_lt_cons_iff]
+    rcases h with h | ⟨rfl, h⟩
+    · exact Or.inl (by omega)
+    · exact Or.inr ⟨rfl, lex_zipWith_add xs ys ss hab has h⟩
+  | [], _ :: _, _, hab, _, _ => by simp at hab
+  | _ :: _, [], _, hab, _, _ => by simp at hab
+  | _ :: _, _ :: _, [], _, has, _ => by simp at has
 
 /-- row-major offsets increase strictly along the lexicographic (iteration) order of in-bounds
     tuples: "visiting in the claimed order walks the storage in strictly increasing address order" -/
